@@ -202,7 +202,7 @@ SHAPES = [
 
 def shard(rec, tier, index, n_shards):
     rng = random.Random(f"C10-{rec.seed}-{index}")
-    reps = 4 if tier == "quick" else 20
+    reps = 4 if tier == "quick" else 80
     sizes = [1, 2, 3, 3, 4]
     n = 0
     for text in SHAPES[index::n_shards]:
@@ -211,7 +211,7 @@ def shard(rec, tier, index, n_shards):
             case = engine.build_case(rng, target, tree, None, capacity=None, origin="curated", sizes_pool=sizes)
             do_case(rec, rng, case)
             n += 1
-    for _ in range((180 if tier == "quick" else 3000) // n_shards):
+    for _ in range((180 if tier == "quick" else 15000) // n_shards):
         target, tree = gen.random_assignment(rng, allow_broadcast_target=False)
         case = engine.build_case(rng, target, tree, None, capacity=None, origin="random", sizes_pool=sizes)
         do_case(rec, rng, case)
